@@ -284,3 +284,31 @@ def check_C14(tier, seed):
         "checker_cmd": "tlc MCConfig (all creation x reopening pairs of the decision table) ; tlc TraceConfig"})
     v.assumptions.append("depth 1-5, width 1-4, five DataONE algorithm names + 7 other spellings/unsupported names, 2 namespaces, int/str encodings, 12 malformations")
     return v.finish()
+
+
+def check_C15(tier, seed):
+    from . import layoutcheck
+    import collections
+    v = Verdict("C15", tier, seed, "model_checking")
+    records, ncfg = layoutcheck.run(tier, seed)
+    viol, r = _judge_simple("TraceLayout", "TraceLayout.cfg", records)
+    for name, k in viol:
+        rec = records[k - 1]
+        desc = {"clause": name, "kind": rec["kind"], "depth": rec["depth"], "width": rec["width"],
+                "algo": rec["algo"]}
+        if rec["kind"] == "extra":
+            desc["rel"] = rec["rel"][:80]
+        v.violation(desc, {"kind": "layout", "clause": name, "record": rec,
+                           "how": "fixed script (3 pids on one content, delete one, a 4th pid, a data-only "
+                                  "store, two metadata formats) on a store with this depth/width/algorithm; "
+                                  "several configurations run in ONE process with the same identifiers"})
+    v.coverage.update({"states": r.distinct, "transitions": r.generated,
+                       "traces_validated_against_impl": len(records),
+                       "configurations": ncfg,
+                       "records_by_kind": dict(collections.Counter(x["kind"] for x in records)),
+                       "exhaustive": True,
+                       "samples": [{k_: (("".join(v_) if isinstance(v_, list) and v_ and isinstance(v_[0], str) else v_))
+                                    for k_, v_ in records[1].items() if k_ not in ("tokens", "pids")}],
+                       "checker_cmd": "tlc TraceLayout (Layout.tla operators evaluated on every file found)"})
+    v.assumptions.append("digests of identifiers/content come from hashlib (trusted); cross-implementation readability (Java HashStore) is not reachable here")
+    return v.finish()
